@@ -79,7 +79,11 @@ def random_link_script(name):
     ops = [('dir', dict(iso='/D', joliet='/d', udf='/d'))]
     ncontent, k = 0, 0
 
+    freed = {'iso': [], 'joliet': [], 'udf': []}      # names that existed and are free again
+
     def fresh(ns):
+        if freed[ns] and rnd.random() < 0.35:
+            return freed[ns].pop(rnd.randrange(len(freed[ns])))
         d = rnd.choice(['', '/D'])
         return {'iso': '%s/N%d.;1' % (d, k), 'joliet': '%s/n%d' % (d.lower(), k), 'udf': '%s/n%d' % (d.lower(), k)}[ns]
     for _ in range(rnd.randint(8, 22)):
@@ -104,9 +108,13 @@ def random_link_script(name):
             ns, path, cid = rnd.choice(names)
             ops.append(('rm_link', {ns: path}))
             names.remove((ns, path, cid))
+            freed[ns].append(path)
         else:
             ns, path, cid = rnd.choice(names)
             ops.append(('rm_file', {ns: path}))
+            for n in names:
+                if n[2] == cid:
+                    freed[n[0]].append(n[1])
             names = [n for n in names if n[2] != cid]
     return ops
 
